@@ -45,6 +45,9 @@ pub fn scenarios(quick: bool) -> Vec<Scenario> {
                 }
                 for at in names {
                     for k in kinds {
+                        if quick && order == "rev" && !(k == "file" || k == "dangling-link") {
+                            continue; // quick: the reversed argument order only for the two kinds a copy can write through
+                        }
                         let mut tree = src_tree();
                         tree.push(Entry::dir("dst"));
                         tree.push(Entry::file("dst/bystander", "keep me").mtime(1_200_000_000, 5).mode(0o600));
